@@ -247,6 +247,22 @@ std::string run_case(const std::vector<std::string>& w)
          words.push_back((g.flags & 1) ? "-h" : "--help");
       }
       else if (c.rfind("ha=", 0) == 0) { words.push_back("--help-arg"); words.push_back(vf::unhexs(c.substr(3))); }
+      else if (c.rfind("set=", 0) == 0)
+      {
+         // set=<idx>:<value hex> : argument <idx> of the main handler with this value
+         const size_t colon = c.find(':');
+         const size_t idx = std::stoul(c.substr(4, colon - 4));
+         size_t seen = 0;
+         for (size_t a = 0; a < argToks.size(); ++a)
+         {
+            if (argOwner[a] >= 0) continue;
+            if (seen++ != idx) continue;
+            std::string k = fields(argToks[a])[1];
+            k = k.substr(0, k.find(','));
+            if (k != "-") words.push_back((k.size() == 1 ? "-" : "--") + k);   // the free-value argument has no key
+            words.push_back(vf::unhexs(c.substr(colon + 1)));
+         }
+      }
    }
    std::vector<std::unique_ptr<char[]>> store;
    std::vector<char*> argv;
